@@ -207,6 +207,9 @@ def _call_site(prog, fn, rg, b, t, eb, ebf):
             src = expr_str(x[3][0]) if x[3] else ""
             if n is not None and _dominated_by_len_edge(prog, fn, b, src, n):
                 return Site(fn, b, k, line, txt, "discharged", "D4 dominated by the len(%s) == %d edge" % (src, n))
+            xf = inner_f if inner_f is not None and inner_f[0] == "call" and inner_f[3] else x
+            if n is not None and x[3] and _chunks_exact_item(prog, fn, x[3][0], xf[3][0], n):
+                return Site(fn, b, k, line, txt, "discharged", "D4' %s is an item of chunks_exact(%d): its length is exactly %d" % (src, n, n))
             return Site(fn, b, k, line, txt, "open", "try_into to [u8; %s] not dominated by a length test" % n)
         return Site(fn, b, k, line, txt, "open", "unwrap/expect on %s" % (expr_str(inner)[:100] if inner else "?"))
     if kind == "index":
@@ -374,6 +377,53 @@ def _mods(prog):
     if getattr(prog, "_mods_for_panics", None) is None:
         prog._mods_for_panics = Mods(prog)
     return prog._mods_for_panics
+
+
+def _chunks_exact_item(prog, fn, src, src_full, n):
+    """src is an item a `ChunksExact` iterator yields - the Some payload of its next(), or the parameter of a
+    closure handed to an adaptor over it - and every chunks_exact(..) of the enclosing function has the
+    constant size n."""
+    root = prog.by_norm.get(fn.root or "") or fn
+    family = [root] + prog.closures_of(root)
+    sizes = []
+    for g in family:
+        geb = ExprBuilder(prog, g)
+        for b, t in g.all_calls():
+            d, r, _ = prog.callee_of(t)
+            if (r or d or "").split("::")[-1] in ("chunks_exact", "chunks_exact_mut", "as_chunks", "array_chunks"):
+                e = geb.call(b, t)
+                sizes.append(e[3][1][1] if len(e[3]) > 1 and e[3][1][0] == "const" else None)
+        # an iterator of that type coming in from outside has an unknown size
+        if g is root and any("ChunksExact" in (g.locals[i]["ty"] or "") for i in range(1, g.arg_count + 1)):
+            return False
+    if not sizes or any(z != n for z in sizes):
+        return False
+
+    def has_ce(e):
+        return any(x[0] == "place" and "ChunksExact<" in (x[2] or "") for x in walk(e)) or any(x[0] == "call" and len(x[4]) > 2 and "ChunksExact<" in (x[4][2] or "") for x in walk(e))
+
+    for cand in (src, src_full):
+        for x in walk(cand):
+            if x[0] == "call" and (callee_name(x) or "").endswith("Iterator>::next") and x[3] and has_ce(x[3][0]):
+                return True
+    # closure parameter
+    p = src
+    while p[0] == "ref" or (p[0] == "proj" and p[2] == ".*"):
+        p = p[2] if p[0] == "ref" else p[1]
+    if fn.kind == "Closure" and p[0] == "place" and fn.arg_count >= 2:
+        par = [vn for vn, l, pj in fn.var_places if l == 2 and not pj]
+        parent = prog.by_norm.get(fn.parent or "")
+        if par and p[1] == par[0] and parent is not None:
+            peb = ExprBuilder(prog, parent)
+            for b, t in parent.all_calls():
+                e = peb.call(b, t)
+                if (callee_name(e) or "").split("::")[-1] not in ("for_each", "try_for_each", "map", "fold", "filter_map", "for_each_mut"):
+                    continue
+                if not any(y[0] == "agg" and y[1] == "closure" and y[2] == fn.norm for a in e[3][1:] for y in walk(a)):
+                    continue
+                if e[3] and has_ce(e[3][0]):
+                    return True
+    return False
 
 
 def _dominated_by_len_edge(prog, fn, blk, src, n):
